@@ -1,6 +1,5 @@
 package main
 
-
 func init() {
 	register("C04",
 		"Decides 'skipping a value consumes exactly the bytes decoding it would' at the level of wire-token languages, for all 27 codec types at once: the automaton extracted from Skip accepts exactly the token sequences the automaton of Read accepts (WA-RS), size-prefixed blocks are handled as the specification lays them out (WA-NEG), Skip accepts every framing of the specification including the byte-size fast path (WA-SPEC-S), New/Omit consume nothing (WA-NEWPURE), and the record reader skips exactly the fields the builder marked absent, with the very sentinel it tests, decoding all others at their own offset (BT-SENTINEL).  A record field is bound to the offset and type of the struct field of that name in the target type itself, so adding or permuting target fields cannot move another field's store (BT-REC, SG-NAMES).  Fields of the target that the file does not carry keep the zero value of a freshly cleared slot (AL-CLR, AL-CLOSE, AL-BUMP).  The record reader is folded for five target shapes — some, none, only the first, only the last, only a middle schema field present — and must visit every entry once, in order, skipping exactly the absent ones (BT-SENTINEL, REC-LIST).  Skip refuses input of its own accord only on a test of a decoded value that Read makes too, and a test of the input left refuses only for lack of the bytes about to be consumed (SK-FAIL). "+
